@@ -203,4 +203,115 @@ Proof.
   - unfold build_attr, un_attr. cbn [at_name at_value]. rewrite (attribute_name_un a Hn), Hb. destruct a; reflexivity.
 Qed.
 
+(** ** the attribute list of a tag *)
+Definition attr_item : pexpr := SeqR (Chars1 ws) (NT nt_attribute).
+
+Lemma ws_cases c : eval ws c = true -> c = 32 \/ c = 9 \/ c = 13 \/ c = 10.
+Proof.
+  unfold ws. cbn [eval existsb]. unfold in_range. cbn [fst snd]. intros H.
+  repeat (apply orb_prop in H; destruct H as [H|H]); try discriminate;
+    apply andb_prop in H; destruct H as [H1 H2]; apply N.leb_le in H1; apply N.ltb_lt in H2; lia.
+Qed.
+
+Lemma name_start_not_ws c : eval (is_name_start_char_except [58]) c = true -> eval ws c = false.
+Proof.
+  intros H. destruct (eval ws c) eqn:E; [|reflexivity]. exfalso.
+  destruct (ws_cases c E) as [->|[->|[->| ->]]]; vm_compute in H; discriminate.
+Qed.
+
+Lemma ncname_head (n : str) : ncname_ok n -> exists c t, n = c :: t /\ eval (is_name_start_char_except [58]) c = true.
+Proof. destruct n as [|c t]; [intros []|]. intros [H _]. eauto. Qed.
+
+Lemma d_attr_head (a : attr) : attr_name_wf a -> exists c t, d_attr a = c :: t /\ eval ws c = false.
+Proof.
+  unfold attr_name_wf, d_attr, d_name. destruct (xa_prefix a) as [p|].
+  - destruct (str_eqb p s_xmlns) eqn:E.
+    + apply str_eqb_eq in E. subst p. intros _. unfold s_xmlns. cbn [app]. eexists. eexists. split; reflexivity.
+    + intros [Hp _]. destruct (ncname_head p Hp) as [c [t [-> Hc]]]. cbn [app]. eexists. eexists.
+      split; [reflexivity|apply name_start_not_ws; exact Hc].
+  - destruct (str_eqb (xa_local a) s_xmlns) eqn:E.
+    + apply str_eqb_eq in E. rewrite E. intros _. unfold s_xmlns. cbn [app]. eexists. eexists. split; reflexivity.
+    + intros [Hl _]. destruct (ncname_head _ Hl) as [c [t [-> Hc]]]. cbn [app]. eexists. eexists.
+      split; [reflexivity|apply name_start_not_ws; exact Hc].
+Qed.
+
+(** [qname] (hence [attribute]) fails where no name can start *)
+Lemma fails_ncname (s : str) : stops (eval (is_name_start_char_except [58])) s -> F (NT nt_ncname) s.
+Proof.
+  intros H. apply fails_nt. rewrite body_ncname. apply fails_recognize. apply fails_seq_l. apply fails_chars1. exact H.
+Qed.
+
+Lemma fails_qname (s : str) : stops (eval (is_name_start_char_except [58])) s -> F (NT nt_qname) s.
+Proof.
+  intros H. apply fails_nt. rewrite body_qname. apply fails_alt.
+  - apply fails_map. apply fails_nt. rewrite body_prefixed_name. apply fails_map. apply fails_seq_l.
+    apply fails_ncname. exact H.
+  - apply fails_map. apply fails_ncname. exact H.
+Qed.
+
+Lemma fails_attribute (s : str) : stops (eval (is_name_start_char_except [58])) s ->
+  prefix s_xmlns s = None -> F (NT nt_attribute) s.
+Proof.
+  intros H Hx. apply fails_nt. rewrite body_attribute. apply fails_map. apply fails_seq_l. apply fails_alt.
+  - apply fails_nt. rewrite body_ns_att_name. apply fails_alt.
+    + apply fails_map. apply fails_seqr_l. apply fails_tag. apply (prefix_longer_none s_xmlns [58]). exact Hx.
+    + apply fails_map. apply fails_tag. exact Hx.
+  - apply fails_map. apply fails_qname. exact H.
+Qed.
+
+(** the two ways a tag can go on after its attributes *)
+Definition tag_tail (t : str) : Prop := (exists r, t = 32 :: 47 :: 62 :: r) \/ (exists r, t = 62 :: r).
+
+Lemma attr_item_fails_tail (t : str) : tag_tail t -> F attr_item t.
+Proof.
+  intros [[r ->]|[r ->]].
+  - eapply fails_seqr_r; [apply (parses_chars1 G_xml ws [32] (47 :: 62 :: r)); [discriminate|reflexivity|reflexivity]|].
+    apply fails_attribute; reflexivity.
+  - apply fails_seqr_l. apply fails_chars1. reflexivity.
+Qed.
+
+Lemma stops_ws_tail (t : str) : tag_tail t -> forall l, Forall attr_wf l ->
+  stops (eval ws) (flat_map (fun a => 32 :: d_attr a) l ++ t) \/ exists u, flat_map (fun a => 32 :: d_attr a) l ++ t = 32 :: u.
+Proof.
+  intros Ht l Hl. destruct l as [|a l]; cbn [flat_map app]; [|right; eauto].
+  destruct Ht as [[r ->]|[r ->]]; [right; eauto|left; reflexivity].
+Qed.
+
+Definition d_attrs (l : list attr) : str := flat_map (fun a => 32 :: d_attr a) l.
+
+(** after a complete attribute: a space, or the end of the tag *)
+Lemma after_attr_stops (t : str) l : tag_tail t -> stops (eval is_name_char) (d_attrs l ++ t) /\ True.
+Proof.
+  intros Ht. split; [|exact I]. destruct l as [|a l]; cbn [d_attrs flat_map app]; [|reflexivity].
+  destruct Ht as [[r ->]|[r ->]]; reflexivity.
+Qed.
+
+Lemma attrs_many (t : str) : tag_tail t -> forall l, Forall attr_wf l ->
+  many_yields attr_item (d_attrs l ++ t) (map VAttribute (map un_attr l)) t.
+Proof.
+  intros Ht. induction l as [|a l IH]; intros Hl; cbn [d_attrs flat_map map app].
+  - apply my_stop. apply attr_item_fails_tail. exact Ht.
+  - inversion Hl as [|a' l' Ha Hl']; subst. fold (d_attrs l). rewrite <- app_assoc.
+    destruct (attribute_rt a (d_attrs l ++ t) Ha) as [Hy _].
+    eapply my_step; [| |apply IH; exact Hl'].
+    + eapply yields_seqr; [|exact Hy].
+      destruct Ha as [Hn _]. destruct (d_attr_head a Hn) as [c [u [E Hc]]].
+      apply (parses_chars1 G_xml ws [32]); [discriminate|reflexivity|]. rewrite E. cbn [app stops]. exact Hc.
+    + unfold d_attrs. cbn [length]. rewrite (app_length (d_attr a)). unfold str, char in *. lia.
+Qed.
+
+Fixpoint attrs_nodup (before : list attribute) (l : list attribute) : Prop :=
+  match l with
+  | [] => True
+  | a :: l' => existsb (fun v => att_name_eqb (at_name v) (at_name a)) before = false /\ attrs_nodup (before ++ [a]) l'
+  end.
+
+Lemma build_attrs_un (l : list attr) : Forall attr_wf l -> forall before, attrs_nodup before (map un_attr l) ->
+  build_attrs_from ents ext before (map un_attr l) = IOk l.
+Proof.
+  induction 1 as [|a l Ha _ IH]; intros before Hnd; cbn [map build_attrs_from]; [reflexivity|].
+  cbn [map attrs_nodup] in Hnd. destruct Hnd as [Hd Hnd]. rewrite Hd.
+  destruct (attribute_rt a [] Ha) as [_ Hb]. rewrite Hb. cbn [ibind]. rewrite (IH _ Hnd). reflexivity.
+Qed.
+
 End Elem.
